@@ -275,7 +275,8 @@ def typed_args(info: dict, args: list) -> list:
             f = Fraction(a)
             fl = f.numerator / f.denominator
             assert Fraction(fl) == f, f"non-dyadic rational {f} for float parameter {p}"
-            out.append(fl)
+            import numpy as np
+            out.append(np.float64(fl))       # a float that also supports numpy-style methods (.astype)
         elif ty == "Bool":
             out.append(bool(a))
         else:
